@@ -10,6 +10,7 @@
                                [None] exactly when one of new_konig's two [assert]s would fire
                                (or, never for admissible inputs -- see CoverProofs -- the fuel ends)
      hk_nU / nV_of           = the shape of the csr_matrix built on the "Hopcroft-Karp" path
+     has_edge                = the early return of that path for a graph without edges
      select_rows_cols        = the orientation choice of symbolic_mpo._decompose_graph
 
    [set.pop()] in new_konig returns an arbitrary element.  The model takes the schedule as a
@@ -161,9 +162,16 @@ Definition vertex_cover_hungarian (rot : nat -> list nat -> list nat) (bg : grap
   | None => None
   | Some ml => cover_from_matching rot bg (length bg) (nV_of bg) ml
   end.
-(* bipartite_vertex_cover(bigraph, "Hopcroft-Karp") with SciPy's matching [ml] as a witness *)
+(* bipartite_vertex_cover(bigraph, "Hopcroft-Karp") with SciPy's matching [ml] as a witness.
+     coord = [(irow,icol) for irow,cols in enumerate(bigraph) for icol in cols]
+     if len(coord) == 0: return [False] * len(bigraph), []          (no SciPy call, no Koenig run)   *)
+Definition has_edge (bg : graph) : bool :=
+  existsb (fun adj => match adj with [] => false | _ :: _ => true end) bg.
 Definition vertex_cover_hk (rot : nat -> list nat -> list nat) (bg : graph) (ml : mtab) : option (list nat * list nat) :=
-  cover_from_matching rot bg (hk_nU bg) (nV_of bg) ml.
+  if has_edge bg then cover_from_matching rot bg (hk_nU bg) (nV_of bg) ml else Some ([], []).
+(* lengths of the two boolean tables returned on that path *)
+Definition hk_table_lengths (bg : graph) : nat * nat :=
+  if has_edge bg then (hk_nU bg, nV_of bg) else (length bg, 0).
 
 (* size of a matching table; validity of a witness (boolean, reflected in CoverProofs) *)
 Definition matched_v (nV : nat) (m : nat -> option nat) : list nat :=
@@ -189,6 +197,12 @@ Definition is_matching (bg : graph) (nV : nat) (ml : mtab) : Prop :=
   (forall v v' u, mget ml v = Some u -> mget ml v' = Some u -> v = v').
 Definition is_rot (rot : nat -> list nat -> list nat) : Prop :=
   forall k l, Permutation (rot k l) l.
+
+Definition minimum_cover (bg : graph) (cu cv : list nat) : Prop :=
+  is_cover bg cu cv /\ NoDup cu /\ NoDup cv /\
+  forall cu' cv', NoDup cu' -> NoDup cv' -> is_cover bg cu' cv' -> length cu + length cv <= length cu' + length cv'.
+Definition maximum_matching (bg : graph) (nV : nat) (ml : mtab) : Prop :=
+  is_matching bg nV ml /\ forall nV' ml', is_matching bg nV' ml' -> msize nV' ml' <= msize nV ml.
 
 (* brute-force minimum cover size (used only in Examples / exhaustive model-level statements):
    choose a subset of U, all V neighbours of the unchosen U vertices are forced *)
